@@ -109,6 +109,27 @@ func vC13Len() int {
 	return 2
 }
 
+// the token alphabet of the thorough tier's longest texts: brackets, quotes,
+// backslash, the punctuation the lexer treats specially, one letter (also the
+// exponent marker), one digit, blank and newline
+var vC13TokenAlphabet = []byte("()[]{}\"'\\`:;,.-+*/=ea1 \n~^#$")
+
+// vC13String: n arbitrary bytes; texts longer than the quick tier's (only
+// explored in the thorough tier) are drawn from the token alphabet, which
+// keeps the number of paths (character classes ^ length) inside the path cap.
+func vC13String(name string, n int, full int) string {
+	if n <= full {
+		return vString(name, n)
+	}
+	b := make([]byte, n)
+	for i := range b {
+		k := vUint8(name + "k")
+		vAssume(int(k) < len(vC13TokenAlphabet))
+		b[i] = vC13TokenAlphabet[k]
+	}
+	return string(b)
+}
+
 // vh_C13_history: the lexer of an interpreter that has parsed anything at
 // all before (every scalar of its state arbitrary, junk in its buffer and
 // token queue) reads a text exactly like a fresh one.
@@ -128,7 +149,7 @@ func vh_C13_history() {
 	var txt string
 	if k := vChoice("text", 1+len(vC13Features)); k == 0 {
 		n := 1 + vChoice("len", vC13Len())
-		txt = vString("t", n)
+		txt = vC13String("t", n, 2)
 	} else {
 		txt = vC13Features[k-1]
 	}
@@ -151,7 +172,7 @@ func vh_C13_secondparse() {
 	es := vEnvs(2)
 	fresh, used := es[0], es[1]
 	n1 := 1 + vChoice("len1", vC13Len())
-	first := vString("first", n1)
+	first := vC13String("first", n1, 2)
 	_, _, p1 := vParse(used, first)
 	if p1 {
 		vDone() // crashes are C01's business
@@ -183,7 +204,7 @@ func vh_C13_chunks() {
 	var txt string
 	if k := vChoice("text", 1+len(vC13ChunkTexts)); k == 0 {
 		n := 2 + vChoice("len", vC13Len())
-		txt = vString("t", n)
+		txt = vC13String("t", n, 3)
 	} else {
 		txt = vC13ChunkTexts[k-1]
 	}
@@ -239,7 +260,7 @@ func vh_C13_lasttoken() {
 	es := vEnvs(2)
 	withSpace, bare := es[0], es[1]
 	n := 1 + vChoice("len", vC13Len())
-	txt := vString("t", n)
+	txt := vC13String("t", n, 2)
 	a, errA, pA := vParse(withSpace, txt+"\n")
 	if pA || errA != nil || len(a) != 1 {
 		vDone()
@@ -301,7 +322,7 @@ func vOffsets(label string, texts []string, symbolic bool) {
 		txt = texts[vChoice("text", len(texts))]
 	} else if k := vChoice("text", 1+len(texts)); k == 0 {
 		n := 1 + vChoice("len", vC13Len())
-		txt = vString("t", n)
+		txt = vC13String("t", n, 2)
 	} else {
 		txt = texts[k-1]
 	}
